@@ -54,6 +54,48 @@ def is_c11(f):
         any(h["op"]["op"] in C11_OPS for h in (f.get("history") or [])[:-1])
 
 
+def sizer_range_probe():
+    """Arrays counted by a narrow sizer: "every reachable message can be
+    encoded" - either growing the array beyond what the sizer can count is
+    refused (ProphyError, message unchanged) or the message encodes.  The
+    reference model's lengths are small; this is the long-array corner."""
+    import shutil
+    import tempfile
+    import prophy
+    from . import pyleg as P
+    fails = []
+    work = tempfile.mkdtemp(prefix="vfszr-", dir=scratch_dir("msg"))
+    text = "struct A { u8 n; u16 x<@n>; };\nstruct B { i8 n; u8 x<@n>; };\nstruct C { u16 n; u8 x<@n>; bytes y<@n>; };\n"
+    try:
+        mod, _ = P.compile_python(text, work, "szr")
+        for cls, limit, grow in ((mod.A, 255, "extend"), (mod.B, 127, "append"), (mod.C, 65535, "extend")):
+            m = cls()
+            refused = False
+            try:
+                if grow == "extend":
+                    m.x.extend([1] * (limit + 1))
+                else:
+                    for _ in range(limit + 1):
+                        m.x.append(1)
+                if cls is mod.C:
+                    m.y = b"z" * (limit + 1)
+            except prophy.ProphyError:
+                refused = True
+            if refused:
+                continue
+            try:
+                m.encode("<")
+            except BaseException as e:  # noqa
+                fails.append({"check": "sizer-range", "schema": text, "type": cls.__name__, "length": limit + 1,
+                              "exception": type(e).__name__,
+                              "what": "%s: an array of %d elements counted by a sizer that holds at most %d was accepted "
+                                      "element by element, and the message then cannot be encoded: %s: %s"
+                                      % (cls.__name__, limit + 1, limit, type(e).__name__, str(e)[:120])})
+    finally:
+        shutil.rmtree(work, ignore_errors=True)
+    return fails
+
+
 def _run(pid, tier):
     rep = Report(pid, tier)
     rep.assumptions = [
@@ -66,6 +108,9 @@ def _run(pid, tier):
     schemas, edges, stats = explore(tier)
     for st in stats:
         rep.add_tlc(st)
+    if pid == "C10":
+        for f in sizer_range_probe():
+            rep.violation(f, shadows.match(pid, f))
     n_walks, walk_len = (150, 6) if tier == "quick" else (2000, 10)
     jobs = []
     for gid, defs in enumerate(schemas, 1):
